@@ -59,7 +59,14 @@ def load_findings():
     if not os.path.exists(FINDINGS):
         return []
     with open(FINDINGS) as f:
-        return json.load(f).get("findings", [])
+        res = json.load(f).get("findings", [])
+    d = os.path.join(ROOT, "known_findings.d")       # per-property drafts, merged into the main file by hand
+    if os.path.isdir(d):
+        for fn in sorted(os.listdir(d)):
+            if fn.endswith(".json"):
+                with open(os.path.join(d, fn)) as f:
+                    res += json.load(f).get("findings", [])
+    return res
 
 
 def _canon_hash(obj):
@@ -99,7 +106,7 @@ def finish(ctx):
     ev = {"property_id": ctx.pid, "tier": ctx.tier, "seed": ctx.seed, "level": ctx.level, "coverage": cov,
           "assumptions": ctx.assumptions, "wall_s": round(time.time() - ctx.t0, 2),
           "violations": len(new), "notes": ctx.notes}
-    if ctx.replay is None:
+    if ctx.replay is None and not os.environ.get("VERIF_NO_EVIDENCE"):
         os.makedirs(EVIDENCE_DIR, exist_ok=True)
         tmp = os.path.join(EVIDENCE_DIR, ".%s.json.tmp" % ctx.pid)
         with open(tmp, "w") as f:
